@@ -246,7 +246,7 @@ _FOREIGN_CHARACTER_CASES = {
 
 def _letter_case(char: str) -> int:
     """The case of a word, as far as the letter determines it (letters of scripts without case do not)."""
-    if char.isupper():
+    if char.isupper() or char.istitle():
         return 1
     if char.islower():
         return 0
